@@ -142,10 +142,21 @@ impl IntLiteral {
     }
 }
 
-#[derive(Clone, Debug, PartialEq, Eq, ToRange, ToTextRange)]
+#[derive(Clone, Debug, PartialEq, Eq, ToRange)]
 pub struct Identifier {
     pub value: String,
     pub info: AstInfo,
+}
+
+impl ToTextRange for Identifier {
+    /// The identifier itself is the last token of its range,
+    /// which might start with comments.
+    fn to_text_range(&self, tokens: &[Token]) -> Range<usize> {
+        match self.to_range() {
+            range if range.is_empty() => self.info.to_text_range(tokens),
+            range => tokens[range.end - 1].range.clone(),
+        }
+    }
 }
 
 impl Identifier {
